@@ -37,6 +37,8 @@ type c25ctx struct {
 	nschemas int64
 	ncli     int64
 	allCLI   bool
+	nsNames  int // accepted schemas' combinators with a namespace
+	nsPrim   int // ... whose short name is a primitive wrapper name
 	mu       sync.Mutex
 	acc      int
 	rej      int
@@ -164,6 +166,17 @@ func (x *c25ctx) evalListing(d *drv, sc *semCase) ([]finding, error) {
 	}
 	x.mu.Lock()
 	x.acc++
+	for _, cm := range sc.Ast {
+		m, _ := cm.(map[string]any)
+		ns, _ := m["ns"].(string)
+		nm, _ := m["nm"].(string)
+		if ns != "" {
+			x.nsNames++
+			if nm == "int" || nm == "long" || nm == "float" || nm == "double" || nm == "string" {
+				x.nsPrim++
+			}
+		}
+	}
 	x.mu.Unlock()
 	// expected listing from the specification (tags computed here: explicit, or CRC32 of the canonical text)
 	var want, wantCoded []string
@@ -185,7 +198,24 @@ func (x *c25ctx) evalListing(d *drv, sc *semCase) ([]finding, error) {
 		owner = append(owner, i)
 	}
 	if len(lines) != len(want) {
-		add("listing", "count", fmt.Sprintf("listing has %d lines, specified %d (one per constructor/function plus %d header lines)", len(lines), len(want), len(sc.Header)))
+		have := map[string]bool{}
+		for _, l := range lines {
+			have[l] = true
+		}
+		key, missing := "count", ""
+		for i, w := range want {
+			if !have[w] && owner[i] >= 0 {
+				m, _ := sc.Ast[owner[i]].(map[string]any)
+				ns, _ := m["ns"].(string)
+				nm, _ := m["nm"].(string)
+				if ns != "" {
+					nm = ns + "." + nm
+				}
+				key, missing = "missing-line/"+nm, w
+				break
+			}
+		}
+		add("listing", key, fmt.Sprintf("listing has %d lines, specified %d (one per constructor/function plus %d header lines); first specified line that is absent: %q", len(lines), len(want), len(sc.Header), missing))
 		return fs, nil
 	}
 	var reparse []string
@@ -322,8 +352,13 @@ func runC25(c *core.Ctx) error {
 		}
 		return nil
 	}
+	// the name domain of the listing rule (namespaced constructors / functions / type names, short names equal to a
+	// primitive wrapper name) is enumerated by a dedicated small job
+	names := deriveOpts(c.Pick(3, 4), 2, 0, true, []int{1})
+	names.Consts["SEMNAMES"] = "TRUE"
 	jobs := []mcJob{{"derived_accepted_schemas", deriveOpts(c.Pick(5, 7), 1, 0, true, []int{1})},
-		{"derived_accepted_schemas_2", deriveOpts(c.Pick(4, 6), 2, 0, true, []int{1})}}
+		{"derived_accepted_schemas_2", deriveOpts(c.Pick(4, 6), 2, 0, true, []int{1})},
+		{"derived_names_of_the_listing_rule", names}}
 	run := func(j mcJob) error {
 		dj, err := d.fresh()
 		if err != nil {
@@ -381,6 +416,11 @@ func runC25(c *core.Ctx) error {
 	c.Set("impl_accepted", x.acc)
 	c.Set("impl_rejected", x.rej)
 	c.Set("schemas_listed_by_the_real_CLI", int(x.ncli))
+	c.Set("listed_combinators_with_namespace", x.nsNames)
+	c.Set("listed_combinators_with_namespace_and_primitive_short_name", x.nsPrim)
+	if x.nsPrim == 0 {
+		return fmt.Errorf("vacuous: no accepted schema had a namespaced combinator whose short name is a primitive wrapper name")
+	}
 	c.Set("listing_lines_compared", x.lines)
 	c.Set("lines_reparsed", x.repar)
 	c.Set("lines_reparsed_equal_to_source", x.equal)
@@ -389,7 +429,7 @@ func runC25(c *core.Ctx) error {
 	if x.acc < 50 || x.equal == 0 {
 		return fmt.Errorf("vacuous: only %d derived schemas were accepted by the compiler (%d rejected), %d lines re-parsed equal", x.acc, x.rej, x.equal)
 	}
-	c.Set("rule", "TLC derives schemas (fixed prelude + 1..2 derived constructors/functions from compiler-safe pools) of weight <= MaxW; each is listed by the canonical generator (every 10th schema and all repository schemas through the real CLI `tl2gen --language=canonical`, the others through the same options/kernel/generator code in the driver process; both must agree); the listing must equal the specified listing (5 header lines, one ListingLine per constructor/function in source order, effective tag = explicit tag or CRC32 of CanonText, modifiers ordered by flag, ` //  <file>`), and every line terminated with a line break and `;` must parse (TL1 parser) to ListingDenotes(combinator); repository schemas: listing lines validated by TLC (TraceTLSyntax)")
+	c.Set("rule", "TLC derives schemas (fixed prelude + 1..2 derived constructors/functions from compiler-safe pools; names a/b and, in a dedicated job, the name domain of the listing rule: namespaced constructors, functions and type names, namespaced names whose short name is int/long/float/double/string) of weight <= MaxW; each is listed by the canonical generator (every 10th schema and all repository schemas through the real CLI `tl2gen --language=canonical`, the others through the same options/kernel/generator code in the driver process; both must agree); the listing must equal the specified listing (5 header lines, one ListingLine per constructor/function in source order, effective tag = explicit tag or CRC32 of CanonText, modifiers ordered by flag, ` //  <file>`), and every line terminated with a line break and `;` must parse (TL1 parser) to ListingDenotes(combinator); repository schemas: listing lines validated by TLC (TraceTLSyntax)")
 	c.Assume("schemas rejected by the compiler are outside the quantifier (accepted schemas) and only counted")
 	c.Assume("a function line is re-parsed after a ---functions--- marker (the listing itself carries no sections); modifiers are compared in listing order")
 	c.Assume("the header lines are fixed text of the tool (int, long, float, double, string) and combinators with these names are not listed again")
